@@ -195,6 +195,61 @@ def run(jobs, only):
     shutil.rmtree(WORK, ignore_errors=True)
 
 
+def _recheck(args):
+    idx, muts, recs = args
+    wd = os.path.join(WORK + "-re", "r%d" % idx)
+    shutil.rmtree(wd, ignore_errors=True)
+    os.makedirs(wd)
+    subprocess.run("git -C /repo archive HEAD | tar -x -C %s" % wd, shell=True, check=True)
+    out = []
+    for m in muts:
+        p = os.path.join(wd, m["file"])
+        with open(p) as f:
+            lines = f.readlines()
+        orig = lines[m["line"] - 1]
+        lines[m["line"] - 1] = orig[:m["col"]] + m["new"] + orig[m["end"]:]
+        with open(p, "w") as f:
+            f.writelines(lines)
+        caught = {}
+        for pid in PROPS:
+            rc2, out2 = sh([os.path.join(VERIF, "bin", "check"), pid, "--tier", "quick", "--no-evidence", "--root", wd], cwd=VERIF, timeout=600)
+            if rc2 != 0:
+                rep = [l for l in out2.splitlines() if l.startswith(pid + " ") and "obligations=" not in l]
+                caught[pid] = rep[0][:300] if rep else "rc=%d" % rc2
+        rec = dict(recs[m["id"]])
+        rec["reported_by"] = caught
+        rec["rechecked"] = True
+        out.append(rec)
+        lines[m["line"] - 1] = orig
+        with open(p, "w") as f:
+            f.writelines(lines)
+    shutil.rmtree(wd, ignore_errors=True)
+    return out
+
+
+def recheck(jobs, all_passing=False):
+    """run the checks again (no cargo test) on the mutants that pass the suite and were silent (or, with --all, on every mutant that passes the suite)"""
+    with open(os.path.join(OUT, "mutants.json")) as f:
+        muts = {m["id"]: m for m in json.load(f)["mutants"]}
+    recs = {}
+    with open(os.path.join(OUT, "results.jsonl")) as f:
+        for l in f:
+            try:
+                r = json.loads(l)
+                recs[r["id"]] = r
+            except ValueError:
+                pass
+    todo = [muts[i] for i, r in recs.items() if r["status"] == "passes-suite" and (all_passing or not r.get("reported_by")) and i in muts]
+    print("%d to re-check" % len(todo))
+    chunks = [(i, todo[i::jobs], recs) for i in range(jobs)]
+    with multiprocessing.Pool(jobs) as pool, open(os.path.join(OUT, "results.jsonl"), "a") as f:
+        for outs in pool.imap_unordered(_recheck, chunks):
+            for rec in outs:
+                f.write(json.dumps(rec) + "\n")
+                f.flush()
+    shutil.rmtree(WORK + "-re", ignore_errors=True)
+
+
 def report():
     recs = {}
     with open(os.path.join(OUT, "results.jsonl")) as f:
@@ -253,6 +308,8 @@ if __name__ == "__main__":
         jobs = int(sys.argv[sys.argv.index("--jobs") + 1]) if "--jobs" in sys.argv else 8
         only = sys.argv[sys.argv.index("--only") + 1] if "--only" in sys.argv else None
         run(jobs, only)
+    elif cmd == "recheck":
+        recheck(int(sys.argv[sys.argv.index("--jobs") + 1]) if "--jobs" in sys.argv else 8, "--all" in sys.argv)
     elif cmd == "report":
         report()
     else:
